@@ -157,6 +157,10 @@ func (g *qGen) next() string {
 // length draws a total fraction length for long values (boundaries of 64-bit accumulators included).
 func (g *qGen) length() int {
 	l := []int{18, 19, 19, 20, 21, 25, 38, 40, 63, 64, 65, 80}
+	if g.r.Intn(25) == 0 {
+		// "any number of digits": beyond what a float64 exponent (308) or any fixed-size accumulator holds
+		return []int{120, 129, 308, 309, 310, 324, 400, 1000}[g.r.Intn(8)]
+	}
 	if g.r.Intn(3) == 0 {
 		return 6 + g.r.Intn(75)
 	}
@@ -287,6 +291,46 @@ func GenHeader(r *rand.Rand, fl Flavour, types []string) Header {
 	return h
 }
 
+// WithEmptyElements inserts, in about one header in twenty, empty list elements into rendered field lines:
+// "," or ", ," before, between and after the ranges (RFC 7230 section 7: they are ignored). Off while
+// JudgeEmptyElements is false.
+func WithEmptyElements(r *rand.Rand, lines []string) []string {
+	if !JudgeEmptyElements || len(lines) == 0 || r.Intn(20) != 0 {
+		return lines
+	}
+	out := append([]string(nil), lines...)
+	empty := func() string {
+		switch r.Intn(4) {
+		case 0:
+			return ", ,"
+		case 1:
+			return ",,,"
+		}
+		return ","
+	}
+	for n := 1 + r.Intn(2); n > 0; n-- {
+		li := r.Intn(len(out))
+		s := out[li]
+		cs := topLevelCommas(s)
+		switch k := r.Intn(4); {
+		case k == 0:
+			s = empty() + s
+		case k == 1:
+			s += empty()
+		case len(cs) > 0:
+			c := cs[r.Intn(len(cs))]
+			s = s[:c] + "," + empty()[1:] + "," + s[c+1:]
+			if r.Intn(2) == 0 {
+				s = s[:c] + "," + s[c:]
+			}
+		default:
+			s = "," + s
+		}
+		out[li] = s
+	}
+	return out
+}
+
 // GenCodingHeader builds a well-formed Accept-Encoding header structure.
 func GenCodingHeader(r *rand.Rand, long bool) Header {
 	n := 1 + r.Intn(5)
@@ -355,6 +399,8 @@ func GenOffers(r *rand.Rand) []string {
 		o := Types[perm[i%len(perm)]]
 		if r.Intn(5) == 0 {
 			o += OfferParams[r.Intn(len(OfferParams))]
+		} else if JudgeOWSBeforeSemicolon && r.Intn(20) == 0 {
+			o += OWSOfferParams[r.Intn(len(OWSOfferParams))]
 		}
 		out = append(out, o)
 	}
